@@ -448,12 +448,77 @@ def core_run(R, exe, cfg, mods, env, D, budget, walks, L, seed, maxpay=1, worker
     return e1e2(R, "CoreMC.tla", cfg, tag, core_canon(mods, maxpay), exe, e, D, budget, walks, L, seed, workers=workers, timeout=timeout)
 
 
-@check("C01")
-def c01(prop, tier, seed):
+CORE_CFGS = {
+    # name: (modules, env)
+    "life": (["A", "B"], {"VP_HOOKS": "A:esx,B:x", "VP_CAP": "2"}),
+    "ctx": (["A", "B"], {"VP_HOOKS": "A:x,B:e", "VP_CAP": "2"}),
+    "ctxp": (["A", "B"], {"VP_HOOKS": "A:x,B:e", "VP_CAP": "2", "VP_CTXPERSIST": "1"}),
+    "perm": (["A", "B"], {"VP_HOOKS": "A:s,B:sx", "VP_FLAGS": "A:RP,B:CUS", "VP_CAP": "2"}),
+    "ps2q": (["A", "B"], {"VP_CAP": "2", "VP_CTXPERSIST": "1", "VP_SETUP": "loop2", "VP_MAXPAY": "2"}),
+    "ps2": (["A", "B"], {"VP_CAP": "2", "VP_CTXPERSIST": "1", "VP_SETUP": "loop2", "VP_MAXPAY": "2"}),
+    "pub2": (["A", "B"], {"VP_CAP": "2", "VP_CTXPERSIST": "1", "VP_SETUP": "loop2"}),
+    "ps3": (["A", "B", "C"], {"VP_CAP": "2", "VP_CTXPERSIST": "1", "VP_SETUP": "loop3"}),
+    "sysmq": (["A", "B"], {"VP_CAP": "2", "VP_CTXPERSIST": "1", "VP_SETUP": "loop2"}),
+    "sysm": (["A", "B"], {"VP_CAP": "2", "VP_CTXPERSIST": "1", "VP_SETUP": "loop2"}),
+    "sysc": (["A", "B"], {"VP_CAP": "3", "VP_CTXPERSIST": "1"}),
+}
+
+
+def core_check(prop, tier, seed, quick_cfgs, thorough_cfgs, rule, Dq=5, Dt=7, budget_q=120000, budget_t=4000000):
     R = Result(prop, tier, seed)
     exe = build_core()
     quick = tier == "quick"
-    core_run(R, exe, "Core_mc_life.cfg", ["A", "B"], {"VP_HOOKS": "A:esx,B:x", "VP_CAP": "2"}, 5 if quick else 7,
-             150000 if quick else 5000000, 2000 if quick else 100000, 40, seed)
-    R.rule = "programs = paths of the dumped TLC graph of Core.tla (lifecycle focus) completed to a clean state"
+    cfgs = quick_cfgs if quick else thorough_cfgs
+    tasks = []
+    for name in cfgs:
+        mods, env = CORE_CFGS[name]
+        mp = int(env.get("VP_MAXPAY", "1"))
+        tasks.append(lambda name=name, mods=mods, env=env, mp=mp: core_run(
+            R, exe, "Core_mc_%s.cfg" % name, mods, env, Dq if quick else Dt, budget_q if quick else budget_t,
+            1500 if quick else 100000, 40, seed, maxpay=mp, workers=max(2, 12 // len(cfgs))))
+    vplib.parallel(tasks, max_workers=4)
+    R.rule = ("programs = paths of the dumped TLC graph of Core.tla (configs: %s) whose edges are public API calls made from the top "
+              "level or from inside callbacks and callback returns; every program is completed to a clean state (context released, "
+              "all references dropped) where allocator and descriptor ledgers must be empty; all paths <= %d steps (budget %d), an "
+              "edge cover, seeded random walks; non-trivial = contains a public call made from inside a callback. " % (
+                  ",".join(cfgs), Dq if quick else Dt, budget_q if quick else budget_t)) + rule
+    R.assumptions = ["one context on one thread; poll batches are chosen by the program (wrapped epoll_wait), the really-ready set is compared",
+                     "mailbox capacity virtualised to 2-3 messages (wrapped write)", "ASan/UBSan + allocator ledger + descriptor ledger attached",
+                     "white-box reads limited to running_modules, quit flag, mailbox fd, poll source owner"]
     return R.finish()
+
+
+@check("C01")
+def c01(prop, tier, seed):
+    return core_check(prop, tier, seed, ["life"], ["life", "ctx", "perm"],
+                      "Compared after every step: module states, registered count, running_modules, callback kind/module/order, return codes.")
+
+
+@check("C07")
+def c07(prop, tier, seed):
+    return core_check(prop, tier, seed, ["ctx", "ctxp"], ["ctx", "ctxp", "life"],
+                      "Focus: context register/deregister/finalize/loop from top level and from callbacks, persistent and not.")
+
+
+@check("C15")
+def c15(prop, tier, seed):
+    return core_check(prop, tier, seed, ["perm"], ["perm"],
+                      "Focus: replaceable/persistent/denied modules, restricted calls from callbacks at nesting depth 2.", Dq=5, Dt=6)
+
+
+@check("C02")
+def c02(prop, tier, seed):
+    return core_check(prop, tier, seed, ["ps2q", "pub2"], ["ps2q", "pub2", "ps3", "ps2"],
+                      "Compared: mailbox lengths, events handed to handlers (payload, sender, topic, system flag), payload release by the library.")
+
+
+@check("C08")
+def c08(prop, tier, seed):
+    return core_check(prop, tier, seed, ["ps2q"], ["ps2q", "ps2", "ps3"],
+                      "Focus: two payloads in flight to one recipient, poison pill ordering, pause/resume, quit + flush.", Dq=6, Dt=8)
+
+
+@check("C19")
+def c19(prop, tier, seed):
+    return core_check(prop, tier, seed, ["sysmq", "sysc"], ["sysm", "sysc", "sysmq"],
+                      "Focus: subscriptions to the system topics; notifications are ordinary mailbox messages (sender, topic, system flag compared).")
